@@ -118,6 +118,7 @@ def body_emit(sel: int) -> bool:
         return True                          # two resonances of one name: a sub-line would be taken for both (that is C17's expansion)
     text = "EventType D0 " + " ".join(event) + "\n" + text_line + " 0 0.5 0.1 0 1.5 0.2\n" + sub + gen.PARAMS
     import contextlib, io
+    gen.reset_state()
     if history:
         # an unrelated file read earlier in the same process gives the same resonance names other decays / tags
         other = ("EventType D0 K- pi+ pi+ pi-\nD0{a(1)(1260)+,K-} 0 1 0 0 0 0\na(1)(1260)+[D]{PiPi20[kMatrix.pole.0]{pi+,pi-},pi+} 2 1 0 2 0 0\n"
@@ -130,7 +131,7 @@ def body_emit(sel: int) -> bool:
                 (gen.GooFitPyChain if lang == 0 else gen.GooFitChain).read_ampgen(text=other)
         except Exception:
             pass
-    gen.reset_state()
+        # the class-level particle sets are NOT reset here: the code of an amplitude does not depend on what was read before
     try:
         with contextlib.redirect_stderr(io.StringIO()), contextlib.redirect_stdout(io.StringIO()):
             lines, states = cls.read_ampgen(text=text)
